@@ -479,6 +479,9 @@ class Shadow:
 
     def apply(self, op):
         n, L = op[0], self.L
+        if n in ("append", "extend", "insert", "setitem", "setslice", "remove", "pop", "clear", "delitem",
+                 "delslice") and op[1] not in L:
+            return ("refuse", "target-not-a-group")
         try:
             if n in ("append", "extend", "insert", "setitem", "setslice"):
                 g = op[1]
